@@ -308,6 +308,12 @@ func (fr *Frame) lookupLocal(name string, at *ssa.BasicBlock, st *State) (SVal, 
 // eval evaluates a specification expression; slice-typed results carry the array-typing fact (see wellFormed).
 func (e *specEnv) eval(x ast.Expr) (SVal, error) {
 	v, err := e.eval0(x)
+	if err == nil && v.Ty != nil && v.V.T.Sort == SInt && v.V.T.S != "" && e.st != nil && e.fx.ctx.quant == 0 && !strings.Contains(v.V.T.S, "|q!") && isMap(v.Ty) {
+		switch x.(type) {
+		case *ast.SelectorExpr, *ast.IndexExpr, *ast.Ident:
+			e.fx.wellFormed(e.st, v.V.T, v.Ty) // a map read from the heap (or a map-typed variable): closed heap, map typing
+		}
+	}
 	if err == nil && v.Ty != nil && v.V.T.Sort == SSlice && e.st != nil && e.fx.ctx.quant == 0 && !strings.Contains(v.V.T.S, "|q!") {
 		if _, ok := v.Ty.Underlying().(*types.Slice); ok {
 			switch x.(type) {
